@@ -776,7 +776,58 @@ def streams(rng, tier):
                 rule="the same bytes on the no-alloc build: never panic; answer identical to the alloc model's (spec) or `err message` "
                      "(noalloc_lockstep / noalloc_refines on arbitrary bytes); outcome == model skip_noalloc")
     m2.shrinkable = False
-    return out + [m1, m2]
+    return out + [m1, m2, seq_stream(rng, tier)]
+
+
+def item_starts(b):
+    """offsets at which an item (or a break) starts inside the well-formed item b (top level first, then nested)"""
+    out, i = [], 0
+    while i < len(b):
+        out.append(i)
+        ib = b[i]; maj, ai = ib >> 5, ib & 31
+        i += 1
+        if ai in (24, 25, 26, 27):
+            w = 1 << (ai - 24)
+            arg = int.from_bytes(b[i:i + w], "big"); i += w
+        else:
+            arg = ai
+        if maj in (2, 3) and ai != 31:
+            i += arg
+    return out
+
+
+def seq_stream(rng, tier):
+    """several skip() calls on ONE decoder: a skip that fails part-way (truncated input, after the switch to the explicit
+    stack) followed by set_position and further skips: every call must behave like a call on a fresh decoder at that
+    position (the model's calls are independent by construction), so state kept inside the Decoder between calls shows"""
+    ops = []
+    specs = stress_specs()
+    n = 4000 if tier == "quick" else 60000
+    for _ in range(n):
+        if rng.random() < 0.7:
+            t = stress_tree(rng.choice(specs), Rot(rng.randrange(1000)))
+        else:
+            t = rand_tree(rng, 5, 14, 0.45, 0.3)
+        e = enc(t)
+        full = e + enc(rand_tree(rng, 2, 4, 0.3, 0.5)) + suffix(rng)
+        cut = e[:rng.randrange(1, len(e))] if len(e) > 1 and rng.random() < 0.6 else full
+        starts = item_starts(e)
+        calls = []
+        for _ in range(rng.randint(2, 6)):
+            r = rng.random()
+            if r < 0.45: calls.append("skip")
+            elif r < 0.8: calls.append("setpos:%d" % rng.choice(starts + [0, 0, len(cut), len(e)]))
+            elif r < 0.9: calls.append("probe:skip")
+            else: calls.append(rng.choice(["datatype", "array", "map", "u8"]))
+        if "skip" not in calls: calls.append("skip")
+        ops.append("seq " + (cut.hex() or "-") + " " + " ".join(calls))
+    st = Stream("skip-call-sequences", "hcore", ops, judge=lambda op, impl, model, spec: ("violation" if ("panic" in impl or impl.startswith("crash")) else ("ok" if impl == model else "violation")),
+                rule="seq <bytes> <2..7 calls>: skip / set_position to item starts / probe().skip() / accessors on ONE decoder over mode-switch stress nests and random "
+                     "trees, complete or truncated: every answer (value / error class / position) equals the model's, whose calls are independent of each other; "
+                     "a difference is a failing call sequence",
+                nontrivial=lambda op, impl: "ok" in impl)
+    st.shrinkable = False
+    return st
 
 
 def replay_streams(rp):
